@@ -245,10 +245,10 @@ def finish_check(pid, tier, results, t0, *, checker_cmd, not_covered, trusted_ex
     for kl in b.get("known_lines", []):
       kf_lines.append(kl)
 
-  if errors:
+  if violations:
+    code = 1          # a failed obligation / failing native input is a violation even if other tasks hit an engine limit
+  elif errors:
     code = 3
-  elif violations:
-    code = 1
   elif unknown or undecided:
     code = 2
   elif obligations < min_obligations:
@@ -295,6 +295,9 @@ def finish_check(pid, tier, results, t0, *, checker_cmd, not_covered, trusted_ex
   if os.environ.get("PYVC_MUTATE"):
     # self-test runs under an in-memory mutation must not overwrite the real evidence
     evdir = os.path.join(VERIF, "out", "mutant_evidence")
+  if os.environ.get("PYVC_EVIDENCE_DIR"):
+    # seeded-change evaluation (tools/seed_eval.sh) runs against a deliberately broken /repo
+    evdir = os.environ["PYVC_EVIDENCE_DIR"]
   os.makedirs(evdir, exist_ok=True)
   with open(os.path.join(evdir, pid + ".json"), "w") as fh:
     json.dump(ev, fh, indent=1, default=str)
